@@ -1725,7 +1725,7 @@ impl FtSpec {
 
 // ================================================================== FB: boxed recursive variants (text templates)
 
-const FB_RADIX: u64 = 14;
+const FB_RADIX: u64 = 17;
 /// every operation sequence in two variants: the list element is a float, or a pair of floats (a multi-word payload
 /// element in front of the recursive reference)
 pub fn fb_count(k: u32) -> u64 {
@@ -1747,6 +1747,7 @@ pub fn fb_decode(idx: u64, k: u32) -> Option<Gen> {
     let mut ops = vec![if wide { "elements are pairs".to_string() } else { "elements are floats".to_string() }];
     let mut n = 0;
     let mut use_global = false;
+    let mut picks: Vec<&str> = vec![];
     for d in digits {
         n += 1;
         let lastf = floats.last().unwrap().clone();
@@ -1823,6 +1824,18 @@ pub fn fb_decode(idx: u64, k: u32) -> Option<Gen> {
                 floats.push(format!("s{n}"));
                 ops.push("cons onto last in an inner scope (not traversed there), then sum(last)".into());
             }
+            14..=16 => {
+                // a long-lived global aggregate that holds the global list is destructured in a helper on every sample:
+                // with a placeholder in the list's position (14), with a named binder there (15), as a record (16)
+                use_global = true;
+                let h = ["gpick", "gpickn", "rpick"][(d - 14) as usize];
+                if !picks.contains(&h) {
+                    picks.push(h);
+                }
+                body.push_str(&format!("  let s{n} = {h}() + {lastf}\n"));
+                floats.push(format!("s{n}"));
+                ops.push(["scalar half of a global (list, float) pair, placeholder pattern", "scalar half of a global (list, float) pair, named pattern", "scalar field of a global record holding the list, placeholder pattern"][(d - 14) as usize].into());
+            }
             13 => {
                 // a value one constructor deep
                 body.push_str(&format!("  let l{n} = Cons({}, Nil)\n", el(&lastf)));
@@ -1844,6 +1857,16 @@ pub fn fb_decode(idx: u64, k: u32) -> Option<Gen> {
     );
     if use_global {
         src.push_str(&format!("let gl = Cons({}, Cons({}, Nil))\n", el("7.0"), el("8.0")));
+    }
+    if !picks.is_empty() {
+        src.push_str("let gt = (gl, 2.0)\nlet gr = {gain = 2.0, lst = gl}\n");
+    }
+    for h in &picks {
+        src.push_str(match *h {
+            "gpick" => "fn gpick() -> float {\n  let (_, k) = gt\n  k\n}\n",
+            "gpickn" => "fn gpickn() -> float {\n  let (unused, k) = gt\n  k\n}\n",
+            _ => "fn rpick() -> float {\n  let {gain = k, lst = _} = gr\n  k\n}\n",
+        });
     }
     src.push_str(&format!("fn dsp(x: float) -> float {{\n{body}  {ret}\n}}\n"));
     Some(Gen { prog: Prog::default(), family: "FB", inputs: 1, ops, ft: None, text: Some(src) })
